@@ -463,22 +463,7 @@ fn compare(m: &ConfM, c: &Config) -> Vec<Fail> {
     f
 }
 
-pub struct TmpDir(pub PathBuf);
-impl TmpDir {
-    pub fn new(tag: &str) -> TmpDir {
-        static N: std::sync::atomic::AtomicU64 = std::sync::atomic::AtomicU64::new(0);
-        let n = N.fetch_add(1, std::sync::atomic::Ordering::SeqCst);
-        let p = std::env::temp_dir().join(format!("hv-{}-{}-{}", tag, std::process::id(), n));
-        let _ = std::fs::remove_dir_all(&p);
-        std::fs::create_dir_all(&p).unwrap();
-        TmpDir(p)
-    }
-}
-impl Drop for TmpDir {
-    fn drop(&mut self) {
-        let _ = std::fs::remove_dir_all(&self.0);
-    }
-}
+pub use crate::engine::TmpDir;
 
 pub fn check_valid(m: &ConfM, seed: u64, labels: &mut Vec<&'static str>) -> Vec<Fail> {
     let tmp = TmpDir::new("c15");
